@@ -117,3 +117,56 @@ pub fn structure(rng: &mut Rng, sh: &Shape) -> PDB {
     }
     pdb
 }
+
+/// Arbitrary shapes: any number of children per level (possibly none), duplicate and unordered identifiers,
+/// random serial numbers.  Built with add_chain / add_residue / add_conformer / Conformer::add_atom.
+pub struct Ragged {
+    pub allow_empty: bool,
+    pub max_models: usize,
+    pub max_children: usize,
+    pub max_atoms: usize,
+    pub serial_range: i64,
+}
+impl Default for Ragged {
+    fn default() -> Self {
+        Ragged { allow_empty: true, max_models: 3, max_children: 3, max_atoms: 3, serial_range: 12 }
+    }
+}
+fn n_children(rng: &mut Rng, allow_empty: bool, max: usize) -> usize {
+    if allow_empty {
+        rng.below(max + 1)
+    } else {
+        1 + rng.below(max)
+    }
+}
+pub fn short_atom(rng: &mut Rng, serial: usize) -> Atom {
+    let name = *rng.pick(&["CA", "N", "C", "O", "CB", "H", "ZN"]);
+    Atom::new(rng.chance(1, 6), serial, "", name, 0.0, 0.0, 0.0, 1.0, 0.0, "", 0).expect("atom")
+}
+pub fn ragged(rng: &mut Rng, cfg: &Ragged) -> PDB {
+    let mut pdb = PDB::new();
+    let nm = n_children(rng, cfg.allow_empty, cfg.max_models);
+    for _ in 0..nm {
+        let mut model = Model::new(rng.below(4));
+        for _ in 0..n_children(rng, cfg.allow_empty, cfg.max_children) {
+            let mut chain = Chain::new(*rng.pick(&["A", "B", "C", "a", "AB", "Z"])).expect("chain");
+            for _ in 0..n_children(rng, cfg.allow_empty, cfg.max_children) {
+                let ic = *rng.pick(&[None, None, Some("A"), Some("B")]);
+                let mut residue = Residue::new(rng.range(-2, 5) as isize, ic, None).expect("residue");
+                for _ in 0..n_children(rng, cfg.allow_empty, cfg.max_children) {
+                    let alt = *rng.pick(&[None, None, Some("A"), Some("B"), Some("AA")]);
+                    let mut conf = Conformer::new(*rng.pick(&["ALA", "GLY", "AL", "HOH"]), alt, None).expect("conformer");
+                    for _ in 0..n_children(rng, cfg.allow_empty, cfg.max_atoms) {
+                        let serial = rng.range(0, cfg.serial_range) as usize;
+                        conf.add_atom(short_atom(rng, serial));
+                    }
+                    residue.add_conformer(conf);
+                }
+                chain.add_residue(residue);
+            }
+            model.add_chain(chain);
+        }
+        pdb.add_model(model);
+    }
+    pdb
+}
